@@ -164,12 +164,14 @@ def load_check(check_id):
 def worker_main(argv):
     check_id, spec_path, out_path = argv
     import resource
-    try:
-        resource.setrlimit(resource.RLIMIT_AS, (4 << 30, 4 << 30))
-    except Exception:
-        pass
     with open(spec_path) as f:
         spec = json.load(f)
+    try:
+        # address space, not memory: a shard with hundreds of threads needs room for their (untouched) malloc arenas and stacks
+        gb = int(spec.get('address_space_gb', 4)) if isinstance(spec, dict) else 4
+        resource.setrlimit(resource.RLIMIT_AS, (gb << 30, gb << 30))
+    except Exception:
+        pass
     rec = Rec(check_id, spec)
     reach = None
     try:
